@@ -82,7 +82,7 @@ def run(chk):
             chk.ob('R13.2', "macro-generated unsafe block in %s comes from ndarray::s" % where, ok, u['sp'],
                    'unsafe-macro-%s' % where)
         else:
-            ok = where == 'cast_unchecked' or _only_cast_inside(lib, u)
+            ok = lib.is_role(where, 'cast_unchecked') or _only_cast_inside(lib, u)
             chk.ob('R13.2', "hand-written unsafe block in %s is the identity cast" % where, ok, u['sp'], 'unsafe-' + where)
     chk.floor('R13.2', 'explicit unsafe blocks classified', n_exp, 1)
     # R13.3 signatures
@@ -91,8 +91,8 @@ def run(chk):
         nd = strip_generics(d)
         if b.get('kind') != 'AssocFn' or b.get('vis') != 'Public':
             continue
-        if not any(nd.startswith(p) for p in ('interp1d::Interp1D::', 'interp2d::Interp2D::',
-                                              'interp1d::Interp1DBuilder::', 'interp2d::Interp2DBuilder::')):
+        if not any(nd.startswith(p) for p in ('Interp1D::', 'Interp2D::',
+                                              'Interp1DBuilder::', 'Interp2DBuilder::')):
             continue
         for p in b['params']:
             ty = p['ty']
